@@ -154,7 +154,7 @@ def judge(ctx, case, res, suspects):
     crash = sanreport.classify(res)
     if crash is not None:
         ctx.count('outcome', 'crash')
-        key = 'crash:' + (';'.join(crash.frames[:2]) if crash.frames else crash.kind + ':' + digest)
+        key = crash.key(digest)
         ctx.violation(key, '%s in %s (input %s, sha1 %s, %d bytes, mutations %s)\nrc=%s\n%s' % (
             crash.kind + (' [' + crash.detail + ']' if crash.detail else ''), ' <- '.join(crash.frames[:4]) or '?',
             case.name, digest, len(case.data), case.mut, res.rc, crash.excerpt[:2500]),
@@ -183,7 +183,7 @@ def judge(ctx, case, res, suspects):
     if noise:
         # continuation lines of a multi-line message are legal only directly after a finding line;
         # anything that looks like a diagnostic of the runtime is not
-        bad = [l for l in noise if re.search(r'terminate called|what\(\)|Traceback|Assertion|std::|core dumped|'
+        bad = [l for l in noise if re.search(r'terminate called|what\(\):|Traceback \(most|Assertion .* failed|core dumped|'
                                              r'Sanitizer|runtime error|Segmentation|Aborted', l)]
         if bad:
             ctx.count('outcome', 'stderr-noise')
@@ -213,7 +213,7 @@ def recheck_suspect(ctx, case):
         ctx.count('slow_inputs', '%s %s' % (case.name, ' '.join(case.opts)))
         crash = sanreport.classify(r2)
         if crash is not None:
-            key = 'crash:' + (';'.join(crash.frames[:2]) if crash.frames else crash.kind + ':' + digest)
+            key = crash.key(digest)
             ctx.violation(key, '%s in %s (input %s sha1 %s; second, alone run)\n%s' % (
                 crash.kind, ' <- '.join(crash.frames[:4]) or '?', case.name, digest, crash.excerpt[:2500]),
                 files={case.fname: case.data}, cmd=cmd_text(case, r2))
